@@ -251,17 +251,23 @@ fn gen_cases(seed: u64, batch: usize, ngrammars: usize) -> Vec<Case> {
         }
     }
     // right-nullable literature shapes with low-priority EMPTY alternatives, GLR only: the
-    // right-nulled table then has cells that differ in nothing but the reduction length
-    for _ in 0..(ngrammars * 3 / 5) {
-        let inputs = gen::tapes(10..14, 20).new_tree(&mut runner).unwrap().current();
-        let mut spec = gen::g_bnf(gen::BnfParams { ambiguous_ok: true, templates_only: true, template_set: gen::RN_TEMPLATES, ..gen::BnfParams::lr_small() })
-            .new_tree(&mut runner)
-            .unwrap()
-            .current();
-        let tape = proptest::collection::vec(proptest::num::u16::ANY, 24).new_tree(&mut runner).unwrap().current();
-        gen::prioritise_against_empty(&mut spec, &mut Cursor::new(&tape));
-        for arrays in [false, true] {
-            v.push(Case { gram: Gram::Bnf(spec.clone(), 0), glr: true, arrays, inputs: inputs.clone() });
+    // right-nulled table then has cells that differ in nothing but the reduction length. Every
+    // shape is used in every batch, once with all EMPTY alternatives low and once at random.
+    for (k, set) in gen::RN_SINGLE.iter().enumerate() {
+        for all_low in [true, false] {
+            if ngrammars < 20 && (k + all_low as usize + batch) % 2 == 0 {
+                continue;
+            }
+            let inputs = gen::tapes(10..14, 20).new_tree(&mut runner).unwrap().current();
+            let mut spec = gen::g_bnf(gen::BnfParams { ambiguous_ok: true, templates_only: true, template_set: set, ..gen::BnfParams::lr_small() })
+                .new_tree(&mut runner)
+                .unwrap()
+                .current();
+            let tape = proptest::collection::vec(proptest::num::u16::ANY, 24).new_tree(&mut runner).unwrap().current();
+            gen::prioritise_against_empty(&mut spec, &mut Cursor::new(&tape), all_low);
+            for arrays in [false, true] {
+                v.push(Case { gram: Gram::Bnf(spec.clone(), 0), glr: true, arrays, inputs: inputs.clone() });
+            }
         }
     }
     v
